@@ -72,6 +72,17 @@ Theorem c05_poly_grad_x_block :
 Proof. exact poly_grad_x. Qed.
 Print Assumptions c05_poly_grad_x_block.
 
+(* Matern52KernelGrad: the (d/dx_j, value) output is the partial derivative of the Matern-5/2 kernel
+   in x_j, every d and ARD lengthscale.  Partial: coincident points (r = 0, where sqrt is not
+   differentiable and the derivative is the limit 0) are excluded; the Hessian block and
+   RBFKernelGradGrad's second-derivative blocks are tested only. *)
+Theorem c05_matern52_grad_x_block_partial :
+  forall d (x y l : nat -> R) j a, (j < d)%nat -> l j <> 0%R -> (0 < @sqd TR d (upd x j a) y l)%R ->
+    is_derive (fun t => @k_matern TR 5 d (upd x j t) y l) a
+              (@m52grad_entry TR d (upd x j a) y l (S j) 0).
+Proof. exact m52_grad_x. Qed.
+Print Assumptions c05_matern52_grad_x_block_partial.
+
 (* what is executed is what is proved about: the expr term the model prints for an RBF /
    RBF-grad / RBF-grad-grad entry denotes the real-valued formula on the denoted inputs *)
 Theorem c05_den_rbf_deriv_entry :
